@@ -390,6 +390,17 @@ def r_flags(prog, tier):
                 hb = v.value
     from ..events import data_events
     devs = [d for d in data_events(prog, f) if d.kind == 'DATA']
+    # the traversal that sets the defaults is not skipped for "trivial" trees: raising and the writers read the flags of
+    # every node of every tree
+    exits_ = [p_ for p_ in cfg.pred[cfg.exit] if cfg.nodes[p_].kind == 'stmt' and isinstance(cfg.nodes[p_].ast, ast.Return)]
+    early_ = [p_ for p_ in exits_ if p_ in cfg.reach(cfg.entry, avoid=frozenset([L.id]))]
+    if early_ and not prog.opaque_calls(f, [tree]):
+        nd_ = cfg.nodes[early_[0]]
+        obs.append(Ob('R-FLAGS/DEFAULT', f.fq, 'every tree is traversed (the default flags are set on all its nodes)', False,
+                      '`%s` (line %d, under %s) leaves before the traversal: the nodes of such a tree have no split / head_block '
+                      'flag, raising and the split output options fail on them' % (
+                          unparse(nd_.ast), nd_.lineno, [unparse(a_.ast)[:40] for a_ in cfg.assumes_at(nd_.id)]),
+                      construct='default-always', line=nd_.lineno))
     # defaults on every visited node
     for key, val in (('split', 'False'), (hb or 'head_block', 'True')):
         hit = [d for d in devs if unparse(d.x) == sv and d.keys == [key] and isinstance(d.value, ast.AST)
